@@ -17,6 +17,7 @@ RULE = (
     "jobs both ran in different batches, or in the same batch (local: same queue) with the dependent launched "
     "after its blocker finished; distinct by hash of (scenario, schedule)"
 )
+RULE += " Later additions (DESIGN.md 9): " + 'a quarter of the HPC cases continue with resubmit-jobs (generated selection) and the same launch oracle applies to the rerun.'
 ASSUMPTIONS = C.WORLD_ASSUMPTIONS + [
     "'recorded outcome' = a row for the blocker in results/results_batch_*.csv or processed_results.csv",
 ]
